@@ -9,7 +9,7 @@
    cdr costs one.  Consequently:
 
      * heap size + 1 is NOT sufficient in general, even for tree-shaped acyclic data: a vector
-       nested k deep occupies k cells and needs 2k+1 units ([fuel_insufficient_example]:
+       nested k deep occupies k cells and needs 2k+2 units ([fuel_insufficient_example]:
        a quoted 8-deep vector on a machine whose heap has 10 cells; the same happens on the
        8192-cell heap for nesting deeper than 4096); with sharing, (cons x x) iterated k times
        occupies k+1 cells and needs 2k+2 units;
